@@ -315,8 +315,8 @@ def size_of(t) -> int:
 class C02(Prop):
     pid = "C02"
     manifest = dict(
-        technique='Lean 4 theorems: truth tables, commutativity, absorption, and structural induction over ALL nestings of && || ! ?: all exists for both runners (interpreter model evI and transpiled-program denotation evC) against the Kleene specification; logical_* regenerated from celtypes.py + bridge; differential correspondence on rendered CEL',
-        text="proof: both runners equal the three-valued error-absorbing specification on every logical expression tree (any depth, any list length); logical_and/or/not/condition and result()'s caught classes are regenerated from the source on every run",
+        technique='Lean 4 theorems: truth tables, commutativity, absorption, and structural induction over ALL nestings of && || ! ?: all exists for both runners (interpreter model evI and transpiled-program denotation evC): equal to the Kleene specification on {true,false,error} leaves, and meeting the partial specification `spec` (deciding operand wins, two non-booleans are an error, bad condition is an error, no exception escapes) on trees with arbitrary leaves; logical_* regenerated from celtypes.py + bridge; differential correspondence on rendered CEL (parenthesised and unparenthesised chains, several macro renderings, programs re-evaluated under many activations); oracle spec mirrored against the Lean spec',
+        text="proof: both runners equal the three-valued error-absorbing specification on every logical expression tree (any depth, any list length), and meet the property's reading for non-boolean operands on every tree (spec_sound, no_escape); logical_and/or/not/condition and result()'s caught classes are regenerated from the source on every run",
         note='Lean kernel; standard axioms; py2lean; evaluator control flow hand-modelled and tied by correspondence; lark',
         ref='DESIGN.md §5 C02')
     lean_targets = ["Cel.Props.C02", "Cel.Bridge.Logic"]
@@ -324,9 +324,11 @@ class C02(Prop):
     gen_names = ["Logic"]
     trusted = ["sub-expressions realising the leaf classes (true/false/error/non-boolean) evaluate to that class in both runners",
                "lark parsing of the generated text"]
-    rule = ("random LExpr trees (size<=7; leaves t/f/e with several concrete realisations each, 15% non-boolean leaves) rendered to CEL and "
-            "evaluated on both runners + all 5x5 / 5^3 operand tuples through celtypes.logical_*; thorough adds every and/or/not tree of depth<=2 "
-            "over {t,f,e}. non-trivial = distinct tree containing at least one error or non-boolean leaf")
+    rule = ("random LExpr trees (size<=7; leaves t/f/e with 12-35 concrete realisations each, 15% non-boolean leaves of 10+8 value kinds) rendered to CEL "
+            "fully parenthesised or with the minimal parentheses of the grammar (flat && / || chains, right-nested ?:, !!x), all/exists as index ladder or over "
+            "element values; every 3-operand chain over the five classes, long chains (<=60 operands) and lists (<=40 elements); programs over variables compiled "
+            "once and evaluated under 3-8 activations; both runners; all 5x5 / 5^3 operand tuples through celtypes.logical_* with 8 kinds of non-boolean value; "
+            "thorough adds every and/or/not tree of depth<=2 over {t,f,e}. non-trivial = distinct tree containing at least one error or non-boolean leaf")
 
     def generate(self, rng, tier):
         quick = tier == "quick"
@@ -349,12 +351,15 @@ class C02(Prop):
                     continue
                 cases.append({"kind": "fn", "fn": "cond", "args": [c, x, y], **kw})
 
+        late = []            # the random (large) trees go last, so that the first failing input reported is a small one
+        sink = [cases]
+
         def both(t, vi=0, fi=0, style=None):
             for r in ("I", "C"):
                 c = {"kind": "expr", "tree": t, "runner": r, "vt": vi, "vf": fi}
                 if style:
                     c["style"] = style
-                cases.append(c)
+                sink[0].append(c)
 
         def has_macro(t):
             m = to_model(t).split()
@@ -367,6 +372,7 @@ class C02(Prop):
 
         # --- random trees, fully parenthesised (round 1) or with the minimal parentheses of the grammar ---
         n = 700 if quick else 12000
+        sink[0] = late
         for i in range(n):
             t = gen_tree(rng, rng.randint(1, 7), 0.15)
             vi, fi = rng.randrange(len(VT)), rng.randrange(len(VF))
@@ -378,6 +384,7 @@ class C02(Prop):
             leaves = [("lit", c, 0) for c in ("t", "f", "e")]
             for t in all_trees(2, leaves):
                 both(t)
+        sink[0] = cases
         # --- unparenthesised chains `a op b op c ...` (left-deep trees): every 3-operand assignment of the five classes,
         #     random longer ones biased to errors/non-booleans with the deciding operand anywhere; mixed && / || chains ---
         for op in ("and", "or"):
@@ -459,7 +466,7 @@ class C02(Prop):
                           ("cond", lf, ("lit", "t", 0), ("lit", "f", 0)), ("not", lf),
                           ("all", [lf, ("lit", "f", 0)]), ("exists", [lf, lf, ("lit", "t", 0)]), ("all", [lf, lf])):
                     both(t, 0, 0, None if j < 4 or (cls == "e" and j < 10) else rng.choice([None, "min"]))
-        return cases
+        return cases + late
 
     @staticmethod
     def _val(cls, vk=0):
